@@ -303,11 +303,11 @@ def run_C12(run):
     stats = [run.build_trace("tr_C12", "Gen_C12")]
     trace_cov(run, stats)
     gens = [os.path.join(run.dir, "Gen_C12.v")] if stats[0] else []
-    run.prove(gens, [], ["C12/P_C12.v", "C12/P_C12_b.v", "C12/P_C12_c.v", "C12/P_C12_d.v"], "C12/Properties_C12.v")
+    run.prove(gens, [], ["C12/P_C12.v", "C12/P_C12_b.v", "C12/P_C12_c.v", "C12/P_C12_d.v", "C12/P_C12_gs.v"], "C12/Properties_C12.v")
     fails = oracle_sweep(run, "C12", [("all", []), SIMD_AVX2, SIMD_SSE2], run.tier)
     run.fails = run.triage(fails)
     run.assumptions = ["identities are over the exact real value of the traced float expressions (sqrt = real square root); 'within rounding' is exercised by the oracle only",
-                       "the matrix orthonormalize is traced but has no theorem (oracle / trace self-validation only); angle / orientedAngle / l1-l2-lMax-lx norms / triangleNormal / vector orthonormalize / closestPointOnLine are theorems",
+                       "angle / orientedAngle / l1-l2-lMax-lx norms / triangleNormal / vector and matrix orthonormalize / closestPointOnLine are theorems",
                        "double shares the template code (oracle only)"]
     return run.finish(TRUST_COMMON + ["oracle_C12.cpp: long-double references on tiny/huge/axis-aligned/integer/generic vectors (violation search only)"],
                       "theorems: all component values (symbolic), lengths 1-4 enumerated, scalar overloads included; oracle: 5 vector classes x lengths x float/double",
